@@ -194,7 +194,7 @@ func (re *rawEnvelope) envelopeType() (string, error) {
 		if re.URI != nil {
 			return "RequestCommand", nil
 		}
-		if re.Status != nil {
+		if re.Status != nil && *re.Status != "" {
 			return "ResponseCommand", nil
 		}
 	}
